@@ -152,7 +152,7 @@ Definition same_table (t1 t2 : list nat) : bool :=
   forallb (fun n => Bool.eqb (existsb (Nat.eqb n) t1) (existsb (Nat.eqb n) t2)) (seq 0 256).
 
 Lemma nat_of_ascii_lt a : nat_of_ascii a < 256.
-Proof. destruct a as [[] [] [] [] [] [] [] []]; vm_compute; repeat constructor. Qed.
+Proof. apply nat_ascii_bounded. Qed.
 
 Lemma same_table_forbidden t1 t2 : same_table t1 t2 = true -> forall a, forbidden t1 a = forbidden t2 a.
 Proof.
